@@ -163,3 +163,21 @@ func runCmd(r cmdRun) *cmdResult {
 }
 
 func sendSIGINT() { syscall.Kill(syscall.Getpid(), syscall.SIGINT) }
+
+// withStdin runs f with os.Stdin replaced by a pipe carrying content.
+func withStdin(content string, f func()) {
+	cmdMu.Lock()
+	defer cmdMu.Unlock()
+	old := os.Stdin
+	r, w, _ := os.Pipe()
+	os.Stdin = r
+	go func() {
+		io.WriteString(w, content)
+		w.Close()
+	}()
+	defer func() {
+		os.Stdin = old
+		r.Close()
+	}()
+	f()
+}
